@@ -55,6 +55,13 @@ CLAIMED = {
         "3 identities, <=4 timestamps, batches <=2 in the model; concrete strings/values from pools; one known finding "
         "(sign of -0.0).",
         "6/C01"),
+    "C02": (
+        "TLA+ spec Sync.tla model-checked for Converges under fairness (as-coded variant must fail); TLC-generated environment "
+        "schedules run on two real instances linked by the real sync client, checkpoints validated by TLC against Trace_Sync.tla",
+        "All interleavings of two-sided writes, deletions and link loss are explored in the model; on the code, generated "
+        "schedules are executed against two real instances and the converged state after every re-connection is validated.",
+        "Real message timing is sampled; 4 identities (2 nodes x point/tombstone); convergence judged after <= 20 s.",
+        "6/C02"),
     "C03": (
         "TLA+ spec Store.tla (XOR Merkle hash as free Boolean group): TLC checks declarative CalcHash = incremental update in "
         "every reachable state; behaviours replayed on a real instance with every stored hash compared with the prediction and "
